@@ -2,12 +2,14 @@ package mux
 
 import (
 	"bytes"
+	"context"
 	"errors"
 	"fmt"
 
 	"github.com/asticode/go-astits"
+	"github.com/bluenviron/mediacommon/v2/pkg/codecs/h264"
+	"github.com/bluenviron/mediacommon/v2/pkg/codecs/mpeg4audio"
 	"github.com/bluenviron/mediacommon/v2/pkg/formats/fmp4"
-	"github.com/bluenviron/mediacommon/v2/pkg/formats/mpegts"
 )
 
 // DUnit is a unit decoded from served media.
@@ -79,52 +81,99 @@ type TSInfo struct {
 	FirstVideoRA bool
 }
 
-// DecodeTS decodes one MPEG-TS segment with a fresh reader (so the segment must be
-// independently decodable) and returns its units in stream order.
+// DecodeTS decodes one MPEG-TS segment with a fresh demuxer (so the segment must be
+// independently decodable: PAT and PMT inside) and returns its units in stream order. It
+// uses the astits demuxer directly rather than mediacommon's Reader, whose track discovery
+// needs at least one packet of every audio track inside the segment.
 func DecodeTS(b []byte) (*TSInfo, []DUnit, error) {
 	info := &TSInfo{}
 	if len(b) >= 376 && len(b)%188 == 0 {
 		pid0 := (int(b[1]&0x1f) << 8) | int(b[2])
 		info.PATFirst = b[0] == 0x47 && pid0 == 0 && b[188] == 0x47
 		if info.PATFirst {
-			// second packet must carry the PMT: its pid is announced in the PAT; astits' default is 0x1000
 			pid1 := (int(b[189]&0x1f) << 8) | int(b[190])
 			info.PATFirst = pid1 != 0 && pid1 != 0x1fff
 		}
 	}
-	r := &mpegts.Reader{R: bytes.NewReader(b)}
-	if err := r.Initialize(); err != nil {
-		return info, nil, fmt.Errorf("mpegts reader: %w", err)
+	if len(b)%188 != 0 {
+		return info, nil, fmt.Errorf("segment size %d is not a multiple of 188", len(b))
 	}
+	dem := astits.NewDemuxer(context.Background(), bytes.NewReader(b), astits.DemuxerOptPacketSize(188))
+	pidTrack := map[uint16]int{}
+	kind := map[uint16]string{}
 	var units []DUnit
-	r.OnDecodeError(func(err error) { info.DecodeErrs = append(info.DecodeErrs, err.Error()) })
-	for i, t := range r.Tracks() {
-		id := i + 1
-		switch t.Codec.(type) {
-		case *mpegts.CodecH264:
-			info.Codecs = append(info.Codecs, "h264")
-			r.OnDataH264(t, func(pts, dts int64, au [][]byte) error {
-				units = append(units, DUnit{TrackID: id, DTS: dts, PTSOff: pts - dts, Parts: au})
-				return nil
-			})
-		case *mpegts.CodecMPEG4Audio:
-			info.Codecs = append(info.Codecs, "aac")
-			r.OnDataMPEG4Audio(t, func(pts int64, aus [][]byte) error {
-				units = append(units, DUnit{TrackID: id, DTS: pts, Parts: aus})
-				return nil
-			})
-		default:
-			info.Codecs = append(info.Codecs, "other")
-		}
-	}
+	gotPMT := false
 	for {
-		err := r.Read()
+		d, err := dem.NextData()
 		if err != nil {
 			if errors.Is(err, astits.ErrNoMorePackets) {
 				break
 			}
 			return info, units, err
 		}
+		if d.PMT != nil && !gotPMT {
+			gotPMT = true
+			for i, es := range d.PMT.ElementaryStreams {
+				pidTrack[es.ElementaryPID] = i + 1
+				switch es.StreamType {
+				case astits.StreamTypeH264Video:
+					kind[es.ElementaryPID] = "h264"
+				case astits.StreamTypeAACAudio:
+					kind[es.ElementaryPID] = "aac"
+				default:
+					kind[es.ElementaryPID] = "other"
+				}
+				info.Codecs = append(info.Codecs, kind[es.ElementaryPID])
+			}
+			continue
+		}
+		if d.PES == nil {
+			continue
+		}
+		if !gotPMT {
+			return info, units, fmt.Errorf("media packet before the PMT")
+		}
+		id, ok := pidTrack[d.PID]
+		if !ok {
+			info.DecodeErrs = append(info.DecodeErrs, fmt.Sprintf("PES on unknown pid %d", d.PID))
+			continue
+		}
+		oh := d.PES.Header.OptionalHeader
+		if oh == nil || oh.PTS == nil {
+			info.DecodeErrs = append(info.DecodeErrs, "PES without PTS")
+			continue
+		}
+		pts := oh.PTS.Base
+		dts := pts
+		if oh.PTSDTSIndicator == astits.PTSDTSIndicatorBothPresent && oh.DTS != nil {
+			dts = oh.DTS.Base
+		}
+		switch kind[d.PID] {
+		case "h264":
+			var au h264.AnnexB
+			if err := au.Unmarshal(d.PES.Data); err != nil {
+				info.DecodeErrs = append(info.DecodeErrs, "annex-b: "+err.Error())
+				continue
+			}
+			if len(au) > 0 && len(au[0]) > 0 && au[0][0] == byte(h264.NALUTypeAccessUnitDelimiter) {
+				au = au[1:]
+			}
+			units = append(units, DUnit{TrackID: id, DTS: dts, PTSOff: pts - dts, Parts: au})
+		case "aac":
+			var pkts mpeg4audio.ADTSPackets
+			if err := pkts.Unmarshal(d.PES.Data); err != nil {
+				info.DecodeErrs = append(info.DecodeErrs, "adts: "+err.Error())
+				continue
+			}
+			var aus [][]byte
+			for _, p := range pkts {
+				aus = append(aus, p.AU)
+			}
+			units = append(units, DUnit{TrackID: id, DTS: pts, Parts: aus})
+		}
+	}
+	if !gotPMT {
+		return info, units, fmt.Errorf("no PMT in the segment")
 	}
 	return info, units, nil
 }
